@@ -21,7 +21,10 @@ META = {
                   "the right end of an xtol-bracket; each event driver (fixed-step, RK45, DOP853 over symbolic spans / grids "
                   "of any length; symplectic over a 3-node grid) is executed with its stepping loop cut: no detected "
                   "crossing is ever skipped, the refiner receives the data of exactly the step in which the first crossing "
-                  "was detected, and without a hit the state at the end of the span is returned.",
+                  "was detected, and without a hit the state at the end of the span is returned. The plane-crossing wrapper of "
+                  "orbit correction (_SingleHitBackend._cross_event_driven) is under contract with its callees replaced by "
+                  "their contracts: for forward = +1 / -1 the search runs on the flow of the requested direction, from the "
+                  "aligned state, over the rest of the window, with the section's event.",
     "level_note": "First crossing is proved at step resolution (a double crossing inside one accepted step is invisible to "
                   "any sampled detector). Accuracy of the dense interpolant w.r.t. the exact trajectory is C02's order "
                   "statement plus T2. The Hamiltonian twins are covered by the relational obligations of C17. The symplectic "
